@@ -17,6 +17,7 @@ from .core import (
     ExcObj,
     FuncObj,
     ModuleObj,
+    SuperObj,
     Obligation,
     OutOfSubset,
     PathEnd,
@@ -143,6 +144,7 @@ class Engine:
         self.axioms_cache = None
         self.proved_lemmas = []  # z3 formulas usable as axioms
         self.extra_axioms = {}  # axioms of builtin summaries, added on first use
+        self.dead_calls = []  # call sites whose assumed postcondition is contradictory (vacuity guard)
         self.stats = {"paths": 0, "dead_paths": 0, "feas_checks": 0}
         self.functions_info = {}
         self.dropped = {}
@@ -1370,6 +1372,12 @@ class Interp:
             raise OutOfSubset(f"class attribute {d}")
         if isinstance(base, FuncObj) and attr == "__call__":
             return base
+        if isinstance(base, SuperObj):
+            for b in self.m.classes[base.cls].bases:
+                q, kind = self.m.find_method(b, attr)
+                if q:
+                    return FuncObj(q, recv=base.recv, )
+            raise OutOfSubset(f"super().{attr}: no contract in the bases of {base.cls}")
         if isinstance(base, ExcObj):
             raise OutOfSubset("exception attribute")
         if isinstance(base, V):
@@ -1386,7 +1394,9 @@ class Interp:
                     spec = self.m.contracts.get(q)
                     if (spec and spec.options.get("property")) or (q in self.m.inlines and q in self.m.options.get("properties", [])):
                         return self.call_named(q, kind, [base], {}, node)
-                    return FuncObj(q, recv=base)
+                    fo = FuncObj(q, recv=base)
+                    fo.virtual = True
+                    return fo
                 # pure spec function used as ghost field:  obj.ghostfn  ->  ghostfn(obj)
                 if attr in self.m.fns:
                     return self.call_spec(self.m.fns[attr], [base], {})
@@ -1601,6 +1611,12 @@ class Interp:
         r = call_special(self, n)
         if r is not NotImplemented:
             return r
+        if isinstance(n.func, ast.Name) and n.func.id == "super" and not n.args and "super" not in self.st.locals:
+            owner = self.current_class()
+            recv = self.st.locals.get("self")
+            if owner is None or not isinstance(recv, V):
+                raise OutOfSubset("super() outside a method under contract")
+            return SuperObj(recv, owner)
         f = self.ev(n.func)
         if isinstance(f, ExcClassObj):
             # exception message expressions are not evaluated (documented drop: they are side-effect free strings)
@@ -1647,6 +1663,10 @@ class Interp:
             if f.name.startswith("builtin:"):
                 return call_builtin(self, f.name[8:], args, kwargs, node)
             if f.recv is not None:
+                if getattr(f, "virtual", False) and not self.spec:
+                    alt = self.dispatch_target(f)
+                    if alt is not None:
+                        f = alt
                 args = [f.recv] + args
             m = self.m
             if f.name in m.fns:
@@ -1658,6 +1678,36 @@ class Interp:
             if f.name in m.inlines:
                 return self.call_inline(f.name, args, kwargs, node)
         raise OutOfSubset(f"call of {f!r} ({ast.unparse(node)[:60]})")
+
+    def dispatch_target(self, f):
+        """virtual call obj.m(...): if subclasses of obj's static class bring their own contract for m, branch on the dynamic
+        type (most specific classes first) and call that contract instead of the statically resolved one"""
+        recv = f.recv
+        static = recv.sort.cls
+        meth = f.name.rsplit(".", 1)[-1]
+        base = self.m.contracts.get(f.name)
+        if base is not None and base.options.get("final"):
+            return None  # the assumed contract is declared to hold for every override (no case split on the dynamic type)
+        cands = []
+        for c in self.m.classes:
+            if c != static and self.m.is_subclass(c, static):
+                q = f"{c}.{meth}"
+                if q in self.m.contracts or q in self.m.inlines:
+                    cands.append((c, q))
+        # most specific first
+        cands.sort(key=lambda cq: -sum(1 for d in self.m.classes if self.m.is_subclass(cq[0], d)))
+        for c, q in cands:
+            if self.branch(self.eng.isinstance_formula(recv.t, c)):
+                return FuncObj(q, recv=V(S.TRef(c), recv.terms))
+        return None
+
+    def current_class(self):
+        """the class whose method body is being executed (innermost inlined frame, else the unit under verification)"""
+        q = self.frames[-1] if self.frames else (self.fs.name if self.fs is not None else None)
+        if q and "." in q:
+            c = q.rsplit(".", 1)[0]
+            return c if c in self.m.classes else None
+        return None
 
     def call_named(self, q, kind, args, kwargs, node):
         if kind == "contract":
@@ -1852,7 +1902,7 @@ class Interp:
                     if self.choose(2) == 1:
                         self.raise_from_call(fs, k, en, env, pre_st)
             self.havoc_assigns(fs, pre_st)
-            if fs.kind != "lemma" and (fs.options.get("allocates") or (fs.ret is not None and _mentions_ref(fs.ret))):
+            if fs.kind != "lemma" and (fs.options.get("allocates") or (fs.ret is not None and _mentions_ref(fs.ret)) or _mentions_fresh(fs)):
                 self.havoc_alloc("call")
             res = NONE
             if fs.ret is not None and fs.ret is not TNone:
@@ -1866,8 +1916,13 @@ class Interp:
             env2 = dict(env)
             env2["result"] = res
             self.st.locals = env2
+            was_feasible = self.feasible()
             for e in fs.ensures:
                 self.st.assume(self.ev_spec(e))
+            if was_feasible and not self.feasible() and not _never_returns(fs):
+                # the callee's postcondition contradicts what is known at this call site: everything after the call would be
+                # "proved" vacuously.  Reported as a checker error, never as success.
+                self.eng.dead_calls.append(f"{self.fname}: postcondition of {fs.name} (call #{site}) is unsatisfiable at the call site")
             return res
         finally:
             self.st.locals, self.old_st, self.bound = saved_locals, saved_old, saved_bound
@@ -2069,6 +2124,18 @@ def _pure_expr(n):
         if isinstance(x, (ast.Subscript, ast.Attribute)):
             return False
     return True
+
+
+def _never_returns(fs):
+    return any(isinstance(e, ast.Constant) and e.value is False for e in fs.ensures)
+
+
+def _mentions_fresh(fs):
+    for e in list(fs.ensures) + [x for x in fs.raise_ensures if x is not None]:
+        for n in ast.walk(e):
+            if isinstance(n, ast.Call) and isinstance(n.func, ast.Name) and n.func.id in ("fresh", "allocated"):
+                return True
+    return False
 
 
 def _only_unfolds(h):
